@@ -91,6 +91,26 @@ Definition dispatch (f : Z) (x : sx) : sx :=
                      of_list of_nat (summary flt a)])
         (compare_properties (to_nat (nth_sx 5 x)) flt chk (to_bool (nth_sx 4 x))
                             (to_str (nth_sx 1 x)) (to_str (nth_sx 2 x)))
+  | 5 => (* the same for two .dtd TEXTS; html.unescape is an oracle, passed as the table
+            [[raw value; unescaped] ...] (identity elsewhere) at index 6 *)
+      let flt := flt_of (to_list (fun p => (key_of (nth_sx 0 p), verdict_of (to_Z (nth_sx 1 p))))
+                                 (nth_sx 0 x)) in
+      let chk := chk_of (to_list (fun p => (to_Z (nth_sx 0 p), to_Z (nth_sx 1 p),
+                                            to_list finding_of (nth_sx 2 p))) (nth_sx 3 x)) in
+      let tbl := to_list (fun p => (to_str (nth_sx 0 p), to_str (nth_sx 1 p))) (nth_sx 6 x) in
+      let hu := fun raw => match find (fun p => str_eqb raw (fst p)) tbl with
+                           | Some p => snd p
+                           | None => raw
+                           end in
+      of_result
+        (fun a => L [of_list of_nat (stats_fields (a_stats a));
+                     of_list note_sx (a_notes a);
+                     of_list key_sx (a_missings a);
+                     of_list A (a_skips a);
+                     of_list note_sx (details flt a);
+                     of_list of_nat (summary flt a)])
+        (compare_dtd hu (to_nat (nth_sx 5 x)) flt chk (to_bool (nth_sx 4 x))
+                     (to_str (nth_sx 1 x)) (to_str (nth_sx 2 x)))
   | 3 => (* Entry.count_words on a value *)
       of_result of_nat (count_words (to_str x))
   | _ => sx_err
